@@ -232,7 +232,12 @@ let emit_cli ~tag r (w : world12) (f : flags) =
   let s = c_output a_s (x_cli w.acl w.creds f) in
   let m = c_output a_m (m_run fs f) in
   if s <> m then note "%s: CLI model differs from the specification" tag;
-  emit ~fn:"C12Cli" ~tag ~s ~m (flags_arg f :: files_args (w.files @ cli_fixture r w))
+  (* tags ending in -nomap: the relation-map files are absent, the command reports the read error and exits with status 1 *)
+  let nomap = String.length tag > 6 && String.sub tag (String.length tag - 6) 6 = "-nomap" in
+  (* without the global map file "-relmap global" and "-relmap all" fail with the same message: the harness, which names every
+     library call whose output equals the program's, names both *)
+  let both x = if tag = "cli-relmap-global-nomap" && x = "act=RelmapGlobal" then "act=RelmapGlobal|RelmapAll" else x in
+  emit ~fn:"C12Cli" ~tag ~s:(both s) ~m:(both m) (flags_arg f :: files_args (w.files @ (if nomap then [] else cli_fixture r w)))
 
 (* ---------------------------------------------------------------- picking things from a world *)
 let real_dbs (w : world12) = List.filter (fun (_, _, t) -> not t) w.dbs
@@ -390,6 +395,8 @@ let cli_other_flags r (w : world12) : (string * flags) list =
     ("cli-relmap-global", { d with f_relmap = bs "global" });
     ("cli-relmap-all", { d with f_relmap = bs "all"; f_passwords = bs "postgres" });
     ("cli-relmap-oid", { d with f_relmap = bs (string_of_int oid) });
+    ("cli-relmap-global-nomap", { d with f_relmap = bs "global" });
+    ("cli-relmap-oid-nomap", { d with f_relmap = bs (string_of_int oid) });
     ("cli-relmap-invalid", { d with f_relmap = bs (pick r [| "Global"; "12x"; "4294967296"; "-1"; "ALL" |]) });
     ("cli-passwords-all", { d with f_passwords = bs "all"; f_csv = true });
     ("cli-passwords-user", { d with f_passwords = bs (pick r [| "postgres"; "app_user"; "Admin"; "admin" |]); f_db = bs n });
